@@ -685,7 +685,31 @@ class NoPanic:
             if u <= ISIZE_MAX // 64:
                 return self.rec(fn, b, "with_capacity", coarse(P, args[0]), "proved", "capacity <= %s" % u, trivial=(args[0][0] == "int"))
             la = B.lin(args[0])
-            if isinstance(la[0], tuple) and la[0] and la[0][0] == "len" and 0 <= la[1] <= 4096:
+            at0 = la[0]
+            for _ in range(3):
+                # through casts and crate-local accessors that return a collection's length
+                while isinstance(at0, tuple) and at0 and at0[0] == "cast":
+                    at0 = at0[3]
+                if isinstance(at0, tuple) and at0 and at0[0] == "call" and at0[1] in P.fns:
+                    r0 = self.W.ev(at0[1]).ret()
+                    at0 = r0
+                    continue
+                if isinstance(at0, tuple) and at0 and at0[0] == "call" and "::" in at0[1]:
+                    # trait method called through a trait object: every implementation must return a length
+                    tr, me = strip_generics(at0[1]).rsplit("::", 1)
+                    impls = P.trait_impl_methods(tr, me)
+                    rets = []
+                    for im in impls:
+                        r1 = self.W.ev(im).ret() if im in P.fns else None
+                        while isinstance(r1, tuple) and r1 and r1[0] == "cast":
+                            r1 = r1[3]
+                        rets.append(r1)
+                    if impls and all(isinstance(r1, tuple) and r1 and (r1[0] == "len" or (r1[0] == "call" and callee_name(r1[1]) == "len")) for r1 in rets):
+                        at0 = ("len", ("dyn", at0[1]))
+                break
+            if isinstance(at0, tuple) and at0 and at0[0] == "call" and callee_name(at0[1]) == "len":
+                at0 = ("len", at0[2][0])
+            if isinstance(at0, tuple) and at0 and at0[0] == "len" and 0 <= la[1] <= 4096:
                 return self.rec(fn, b, "with_capacity", coarse(P, args[0]), "typed",
                                 "capacity = length of a collection that already exists in memory + %d (allocation proportional to memory already held)" % la[1])
             return self.rec(fn, b, "with_capacity", coarse(P, args[0]), "open", "capacity is not bounded")
